@@ -1583,4 +1583,546 @@ theorem writeAllLoop_strip : ∀ (sc : List Outcome) (f1 f2 : Nat) (got : Bytes)
           simp only [stripIntr, writeAllLoop_succ, Wr.write, BaseWr.write, scriptWrite]
           by_cases hlt : needle < data.length <;> simp [hlt, Wr.strip, stripIntr]
 
+
+/-! ## vectored writes -/
+
+theorem vslice_flatten : ∀ (bufs : List Bytes) (n : Nat), (vslice bufs n).flatten = bufs.flatten.drop n := by
+  intro bufs
+  induction bufs with
+  | nil => intro n; simp [vslice]
+  | cons b rest ih =>
+    intro n
+    unfold vslice
+    split
+    · rename_i h
+      simp only [List.flatten_cons]
+      rw [List.drop_append_of_le_length (by omega)]
+    · rename_i h
+      have hle : b.length ≤ n := Nat.le_of_not_gt h
+      rw [ih]
+      simp only [List.flatten_cons]
+      rw [List.drop_append, List.drop_of_length_le hle]
+      simp
+
+theorem firstNonEmpty_none : ∀ (vs : List Bytes), firstNonEmpty vs = none → vs.flatten = [] := by
+  intro vs
+  induction vs with
+  | nil => intro _; rfl
+  | cons b rest ih =>
+    intro h
+    unfold firstNonEmpty at h
+    split at h
+    · cases h
+    · rename_i hb
+      have : b = [] := List.eq_nil_of_length_eq_zero (by omega)
+      simp [this, ih h]
+
+theorem firstNonEmpty_some : ∀ (vs : List Bytes) (b : Bytes), firstNonEmpty vs = some b →
+    b ≠ [] ∧ ∃ rest, vs.flatten = b ++ rest := by
+  intro vs
+  induction vs with
+  | nil => intro b h; simp [firstNonEmpty] at h
+  | cons a rest ih =>
+    intro b h
+    unfold firstNonEmpty at h
+    split at h
+    · rename_i ha
+      cases h
+      exact ⟨by intro h0; rw [h0] at ha; simp at ha, rest.flatten, by simp⟩
+    · rename_i ha
+      have : a = [] := List.eq_nil_of_length_eq_zero (by omega)
+      obtain ⟨h1, r, h2⟩ := ih b h
+      exact ⟨h1, r, by simp [this, h2]⟩
+
+/-- `BufWriter::write_vectored`'s closure takes a prefix of the concatenation -/
+theorem pushAll_spec : ∀ (views : List Bytes) (b : Buffer) (written : Nat), b.WF →
+    ∃ k, (pushAll b written views).1 = written + k ∧ k ≤ views.flatten.length ∧
+      (pushAll b written views).2.pending = b.pending ++ views.flatten.take k ∧
+      (pushAll b written views).2.WF ∧ (pushAll b written views).2.cap = b.cap := by
+  intro views
+  induction views with
+  | nil => intro b written hw; exact ⟨0, by simp [pushAll], by simp, by simp [pushAll], hw, rfl⟩
+  | cons s rest ih =>
+    intro b written hw
+    have hp := Buffer.push_spec b s hw
+    have hfl : (s :: rest).flatten.length = s.length + rest.flatten.length := by simp
+    have hn : (b.push s).1 ≤ s.length := by rw [hp.2.2.1]; omega
+    unfold pushAll
+    simp only []
+    split
+    · refine ⟨(b.push s).1, rfl, by omega, ?_, hp.2.1, hp.2.2.2.2⟩
+      rw [hp.1, List.flatten_cons, List.take_append_of_le_length hn]
+    · rename_i hfull
+      -- not full: the whole member was taken
+      have hdl : (b.push s).2.data.length = b.data.length + (b.push s).1 := by
+        have : (b.push s).1 = min s.length (b.cap - b.data.length) := hp.2.2.1
+        simp only [Buffer.push, List.length_append, List.length_take]
+        omega
+      have hall : (b.push s).1 = s.length := by
+        have h1 := hp.2.2.1
+        have h2 := hw.2
+        rw [hp.2.2.2.2] at hfull
+        omega
+      obtain ⟨k, e1, e2, e3, e4, e5⟩ := ih (b.push s).2 (written + (b.push s).1) hp.2.1
+      have htk : (s :: rest).flatten.take (s.length + k) = s ++ rest.flatten.take k := by
+        rw [List.flatten_cons, List.take_append, List.take_of_length_le (by omega)]
+        simp
+      refine ⟨s.length + k, by rw [e1, hall]; omega, by rw [hfl]; omega, ?_, e4, by rw [e5, hp.2.2.2.2]⟩
+      rw [e3, hp.1, hall, List.take_of_length_le (Nat.le_refl _), htk, List.append_assoc]
+
+/-! ### the kind of a writer never changes -/
+
+def BaseWr.isScript : BaseWr → Bool
+  | .script _ _ _ _ => true
+  | _ => false
+
+theorem BaseWr.write_isScript (w : BaseWr) (d : Bytes) (h : w.isScript = true) :
+    (w.write d).2.isScript = true := by
+  cases w <;> simp_all [BaseWr.isScript, BaseWr.write]
+
+theorem flushLoop_isScript : ∀ (fuel : Nat) (w : BaseWr) (b : Buffer) (total : Nat), w.isScript = true →
+    (flushLoop fuel w b total).2.1.isScript = true := by
+  intro fuel
+  induction fuel with
+  | zero => intro w b total h; simpa [flushLoop] using h
+  | succ fuel ih =>
+    intro w b total h
+    rw [flushLoop_succ]
+    have hw := BaseWr.write_isScript w b.pending h
+    generalize w.write b.pending = out at hw
+    obtain ⟨res, w1⟩ := out
+    cases res with
+    | ok n =>
+      simp only []
+      split
+      · exact hw
+      · split
+        · exact hw
+        · split
+          · exact hw
+          · exact ih w1 _ _ hw
+    | err e => exact hw
+    | panic => exact hw
+    | ub => exact hw
+    | fuel => exact hw
+
+theorem flushIfNeeded_isScript (w : BaseWr) (b : Buffer) (h : w.isScript = true) :
+    (flushIfNeeded w b).2.1.isScript = true := by
+  unfold flushIfNeeded
+  split
+  · have : (flushTo w b).2.1.isScript = true := by
+      unfold flushTo
+      split
+      · exact h
+      · exact flushLoop_isScript _ w b 0 h
+    generalize flushTo w b = out at this
+    obtain ⟨res, w1, b1⟩ := out
+    cases res <;> exact this
+  · exact h
+
+/-- a scripted writer, bare or behind a `BufWriter` (the vectored theorems are stated for these) -/
+def Wr.Scripted : Wr → Prop
+  | .base w => w.isScript = true
+  | .buf w _ => w.isScript = true
+
+theorem bufWriteVectored_isScript (w : BaseWr) (b : Buffer) (views : List Bytes) (h : w.isScript = true) :
+    (bufWriteVectored w b views).2.1.isScript = true := by
+  unfold bufWriteVectored
+  have h1 := flushIfNeeded_isScript w b h
+  generalize flushIfNeeded w b = out at h1
+  obtain ⟨res, w1, b1⟩ := out
+  cases res with
+  | ok u =>
+    simp only []
+    have h2 := flushIfNeeded_isScript w1 (pushAll b1 0 views).2 h1
+    generalize flushIfNeeded w1 (pushAll b1 0 views).2 = out2 at h2
+    obtain ⟨res2, w2, b2⟩ := out2
+    cases res2 <;> exact h2
+  | err e => exact h1
+  | panic => exact h1
+  | ub => exact h1
+  | fuel => exact h1
+
+theorem Wr.writeVectored_scripted (w : Wr) (views : List Bytes) (hs : w.Scripted) :
+    (w.writeVectored views).2.Scripted := by
+  cases w with
+  | base bw =>
+    cases bw with
+    | script got sc f s =>
+      simp only [Wr.writeVectored, BaseWr.writeVectored, Wr.Scripted]
+      cases firstNonEmpty views with
+      | none => rfl
+      | some b => exact BaseWr.write_isScript _ b rfl
+    | vec v => simp [Wr.Scripted, BaseWr.isScript] at hs
+    | sliceMut sm => simp [Wr.Scripted, BaseWr.isScript] at hs
+    | cursorVec v p => simp [Wr.Scripted, BaseWr.isScript] at hs
+    | cursorArr a p => simp [Wr.Scripted, BaseWr.isScript] at hs
+  | buf bw b => exact bufWriteVectored_isScript bw b views hs
+
+theorem bufWriteVectored_post (w : BaseWr) (b : Buffer) (views : List Bytes) (hf : w.Fifo) (hw : b.WF)
+    (hn : w.NoIntr) :
+    WrPost (.buf w b) views.flatten
+      ((bufWriteVectored w b views).1, .buf (bufWriteVectored w b views).2.1 (bufWriteVectored w b views).2.2) := by
+  unfold bufWriteVectored
+  have h1 := flushIfNeeded_spec w b hf hw
+  generalize hrd : flushIfNeeded w b = out at h1
+  obtain ⟨res, w1, b1⟩ := out
+  obtain ⟨t, e1, e2, e3, e4, e5, e6, e7, e8⟩ := h1
+  simp only [] at e1 e2 e3 e4 e5 e6 e7 e8
+  have hs1 : w1.sink ++ b1.pending = w.sink ++ b.pending := by
+    rw [e1, e2, List.append_assoc, List.take_append_drop]
+  rcases e8 with a | a | ⟨a, _, a3⟩ | ⟨k, a⟩
+  · subst a
+    simp only []
+    obtain ⟨k, p1, p2, p3, p4, p5⟩ := pushAll_spec views b1 0 e3
+    have h2 := flushIfNeeded_spec w1 (pushAll b1 0 views).2 e5 p4
+    generalize hrd2 : flushIfNeeded w1 (pushAll b1 0 views).2 = out2 at h2
+    obtain ⟨res2, w2, b2⟩ := out2
+    obtain ⟨t2, f1, f2, f3, f4, f5, f6, f7, f8⟩ := h2
+    simp only [] at f1 f2 f3 f4 f5 f6 f7 f8
+    have hs2 : w2.sink ++ b2.pending = (w.sink ++ b.pending) ++ views.flatten.take (pushAll b1 0 views).1 := by
+      rw [f1, f2, List.append_assoc, List.take_append_drop, p3, ← List.append_assoc, hs1, p1]
+      simp
+    have hle : (pushAll b1 0 views).1 ≤ views.flatten.length := by rw [p1]; omega
+    rcases f8 with a | a | ⟨a, _, a3⟩ | ⟨k', a⟩
+    · subst a
+      exact ⟨hle, hs2, ⟨f5, f3, f7 (e7 hn)⟩, by simp only [Wr.entries]; omega⟩
+    · subst a
+      exact ⟨⟨_, hle, hs2⟩, ⟨f5, f3, f7 (e7 hn)⟩⟩
+    · exact absurd (e7 hn) a3
+    · subst a
+      exact ⟨⟨_, hle, hs2⟩, ⟨f5, f3, f7 (e7 hn)⟩⟩
+  · subst a
+    exact ⟨⟨0, by omega, by simp [Wr.sink, hs1]⟩, ⟨e5, e3, e7 hn⟩⟩
+  · exact absurd hn a3
+  · subst a
+    exact ⟨⟨0, by omega, by simp [Wr.sink, hs1]⟩, ⟨e5, e3, e7 hn⟩⟩
+
+/-- **one `write_vectored`** on a scripted good writer behaves like a `write` of a prefix of the
+concatenation of the views -/
+theorem Wr.writeVectored_post (w : Wr) (views : List Bytes) (hg : w.Good) (hs : w.Scripted) :
+    WrPost w views.flatten (w.writeVectored views) := by
+  cases w with
+  | base bw =>
+    cases bw with
+    | script got sc f s =>
+      simp only [Wr.writeVectored, BaseWr.writeVectored]
+      cases hfn : firstNonEmpty views with
+      | none =>
+        have := firstNonEmpty_none views hfn
+        simp [WrPost, this, Wr.sink, Wr.Good, BaseWr.Fifo, Wr.entries]
+      | some b =>
+        obtain ⟨hne, rest, hfl⟩ := firstNonEmpty_some views b hfn
+        have hp := Wr.write_post (.base (.script got sc f s)) b hg
+        simp only [Wr.write] at hp
+        simp only []
+        generalize hrd : (BaseWr.script got sc f s).write b = out at hp
+        obtain ⟨res, w1⟩ := out
+        have hbl : b.length ≤ views.flatten.length := by rw [hfl]; simp
+        cases res with
+        | ok n =>
+          simp only [WrPost] at hp ⊢
+          obtain ⟨h1, h2, h3, h4⟩ := hp
+          refine ⟨by omega, ?_, h3, h4⟩
+          rw [h2, hfl, List.take_append_of_le_length h1]
+        | err e =>
+          cases e with
+          | interrupted => exact hp
+          | other k =>
+            simp only [WrPost] at hp ⊢
+            obtain ⟨⟨k', hk1, hk2⟩, h3⟩ := hp
+            exact ⟨⟨k', by omega, by rw [hk2, hfl, List.take_append_of_le_length hk1]⟩, h3⟩
+          | writeZero =>
+            simp only [WrPost] at hp ⊢
+            obtain ⟨⟨k', hk1, hk2⟩, h3⟩ := hp
+            exact ⟨⟨k', by omega, by rw [hk2, hfl, List.take_append_of_le_length hk1]⟩, h3⟩
+          | unexpectedEof => simp [WrPost] at hp
+        | panic => simp [WrPost] at hp
+        | ub => simp [WrPost] at hp
+        | fuel => simp [WrPost] at hp
+    | vec v => simp [Wr.Scripted, BaseWr.isScript] at hs
+    | sliceMut sm => simp [Wr.Scripted, BaseWr.isScript] at hs
+    | cursorVec v p => simp [Wr.Scripted, BaseWr.isScript] at hs
+    | cursorArr a p => simp [Wr.Scripted, BaseWr.isScript] at hs
+  | buf bw b =>
+    obtain ⟨h1, h2, h3⟩ := hg
+    exact bufWriteVectored_post bw b views h1 h2 h3
+
+/-! ## write_vectored_all -/
+
+theorem writeVectoredAllLoop_succ (fuel : Nat) (w : Wr) (bufs : List Bytes) (len needle : Nat) :
+    writeVectoredAllLoop (fuel + 1) w bufs len needle =
+      if needle < len then
+        match w.writeVectored (vslice bufs needle) with
+        | (.ok n, w') =>
+          if n = 0 then (.err .writeZero, w') else writeVectoredAllLoop fuel w' bufs len (needle + n)
+        | (.err .interrupted, w') => writeVectoredAllLoop fuel w' bufs len needle
+        | (.err e, w') => (.err e, w')
+        | (.panic, w') => (.panic, w')
+        | (.ub, w') => (.ub, w')
+        | (.fuel, w') => (.fuel, w')
+      else (.ok (), w) := rfl
+
+/-- `write_vectored_all` on a scripted good writer: exactly like `write_all` of the concatenation -/
+theorem writeVectoredAllLoop_spec : ∀ (fuel : Nat) (w : Wr) (bufs : List Bytes) (needle : Nat), w.Good →
+    w.Scripted → needle ≤ bufs.flatten.length → (bufs.flatten.length - needle) + w.entries < fuel →
+    ∃ (t : Nat) (res : Res Unit) (w' : Wr),
+      writeVectoredAllLoop fuel w bufs bufs.flatten.length needle = (res, w') ∧
+      needle + t ≤ bufs.flatten.length ∧ w'.sink = w.sink ++ (bufs.flatten.drop needle).take t ∧ w'.Good ∧
+      ((res = .ok () ∧ needle + t = bufs.flatten.length) ∨ res = .err .writeZero ∨
+        (∃ k, res = .err (.other k))) := by
+  intro fuel
+  induction fuel with
+  | zero => intro w bufs needle _ _ _ hf; omega
+  | succ fuel ih =>
+    intro w bufs needle hg hsc hn hf
+    rw [writeVectoredAllLoop_succ]
+    by_cases hlt : needle < bufs.flatten.length
+    · rw [if_pos hlt]
+      have hp := Wr.writeVectored_post w (vslice bufs needle) hg hsc
+      have hs' := Wr.writeVectored_scripted w (vslice bufs needle) hsc
+      rw [vslice_flatten] at hp
+      generalize hrd : w.writeVectored (vslice bufs needle) = out at hp hs'
+      obtain ⟨res, w1⟩ := out
+      have hdl : (bufs.flatten.drop needle).length = bufs.flatten.length - needle := List.length_drop
+      cases res with
+      | ok n =>
+        simp only [WrPost] at hp
+        obtain ⟨h1, h2, h3, h4⟩ := hp
+        by_cases hz : n = 0
+        · simp only [hz, if_true]
+          exact ⟨0, _, w1, rfl, by omega, by simp [h2, hz], h3, Or.inr (Or.inl rfl)⟩
+        · simp only [hz, if_false]
+          obtain ⟨t, res, w2, e1, e2, e3, e4, e5⟩ := ih w1 bufs (needle + n) h3 hs' (by omega) (by omega)
+          refine ⟨n + t, res, w2, e1, by omega, ?_, e4, ?_⟩
+          · rw [e3, h2, List.append_assoc, ← List.drop_drop, take_add_drop]
+          · rcases e5 with ⟨a, b⟩ | a | a
+            · exact Or.inl ⟨a, by omega⟩
+            · exact Or.inr (Or.inl a)
+            · exact Or.inr (Or.inr a)
+      | err e =>
+        cases e with
+        | interrupted =>
+          simp only [WrPost] at hp
+          obtain ⟨h1, h2, h3⟩ := hp
+          obtain ⟨t, res, w2, e1, e2, e3, e4, e5⟩ := ih w1 bufs needle h2 hs' hn (by omega)
+          exact ⟨t, res, w2, e1, e2, by rw [e3, h1], e4, e5⟩
+        | other k =>
+          simp only [WrPost] at hp
+          obtain ⟨⟨k', hk1, hk2⟩, h3⟩ := hp
+          exact ⟨k', _, w1, rfl, by omega, hk2, h3, Or.inr (Or.inr ⟨k, rfl⟩)⟩
+        | writeZero =>
+          simp only [WrPost] at hp
+          obtain ⟨⟨k', hk1, hk2⟩, h3⟩ := hp
+          exact ⟨k', _, w1, rfl, by omega, hk2, h3, Or.inr (Or.inl rfl)⟩
+        | unexpectedEof => simp [WrPost] at hp
+      | panic => simp [WrPost] at hp
+      | ub => simp [WrPost] at hp
+      | fuel => simp [WrPost] at hp
+    · rw [if_neg hlt]
+      exact ⟨0, _, w, rfl, by omega, by simp, hg, Or.inl ⟨rfl, by omega⟩⟩
+
+
+/-! ## the positional loops are the cursor loops -/
+
+theorem readExactAtLoop_succ (fuel : Nat) (src : Bytes) (b : VBuf) (pos len read : Nat) :
+    readExactAtLoop (fuel + 1) src b pos len read =
+      if read < len then
+        if b.data.length < read then (.panic, b)
+        else if (readAt src (pos + read) (b.cap - read)).length = 0 then (.err .unexpectedEof, b)
+        else
+          readExactAtLoop fuel src (b.place read (readAt src (pos + read) (b.cap - read))) pos len
+            (read + (readAt src (pos + read) (b.cap - read)).length)
+      else (.ok (), b) := rfl
+
+/-- `read_exact_at(buf, pos)` on an in-memory source is `read_exact` on a cursor placed at `pos` -/
+theorem readExactAtLoop_eq_cursor : ∀ (fuel : Nat) (src : Bytes) (b : VBuf) (pos len read : Nat),
+    readExactAtLoop fuel src b pos len read =
+      ((readExactLoop fuel (.cursor src (pos + read)) b len read).1,
+        (readExactLoop fuel (.cursor src (pos + read)) b len read).2.2) := by
+  intro fuel
+  induction fuel with
+  | zero => intro src b pos len read; rfl
+  | succ fuel ih =>
+    intro src b pos len read
+    rw [readExactAtLoop_succ, readExactLoop_succ]
+    by_cases hlt : read < len
+    · rw [if_pos hlt, if_pos hlt]
+      by_cases hp : b.data.length < read
+      · rw [if_pos hp, if_pos hp]
+      · rw [if_neg hp, if_neg hp]
+        simp only [Rd.read]
+        by_cases hz : (readAt src (pos + read) (b.cap - read)).length = 0
+        · rw [if_pos hz, if_pos hz]
+        · rw [if_neg hz, if_neg hz, ih, Nat.add_assoc]
+    · rw [if_neg hlt, if_neg hlt]
+
+theorem readToEndAtLoop_succ (fuel : Nat) (src : Bytes) (b : VBuf) (pos start total : Nat) :
+    readToEndAtLoop (fuel + 1) src b pos start total =
+      if (roomFor b).data.length < start + total then (.panic, roomFor b)
+      else if (readAt src (pos + total) ((roomFor b).cap - (start + total))).length = 0 then
+        (.ok total, roomFor b)
+      else
+        readToEndAtLoop fuel src
+          ((roomFor b).place (start + total) (readAt src (pos + total) ((roomFor b).cap - (start + total))))
+          pos start (total + (readAt src (pos + total) ((roomFor b).cap - (start + total))).length) := rfl
+
+/-- `read_to_end_at(buf, pos)` on an in-memory source is `read_to_end` on a cursor placed at `pos` -/
+theorem readToEndAtLoop_eq_cursor : ∀ (fuel : Nat) (src : Bytes) (b : VBuf) (pos start total : Nat),
+    readToEndAtLoop fuel src b pos start total =
+      ((readToEndLoop fuel (.cursor src (pos + total)) b start total).1,
+        (readToEndLoop fuel (.cursor src (pos + total)) b start total).2.2) := by
+  intro fuel
+  induction fuel with
+  | zero => intro src b pos start total; rfl
+  | succ fuel ih =>
+    intro src b pos start total
+    rw [readToEndAtLoop_succ, readToEndLoop_succ]
+    by_cases hp : (roomFor b).data.length < start + total
+    · rw [if_pos hp, if_pos hp]
+    · rw [if_neg hp, if_neg hp]
+      simp only [Rd.read]
+      by_cases hz : (readAt src (pos + total) ((roomFor b).cap - (start + total))).length = 0
+      · rw [if_pos hz, if_pos hz]
+      · rw [if_neg hz, if_neg hz, ih, Nat.add_assoc]
+
+
+/-! ## read_vectored_exact through the default `read_vectored` loop -/
+
+/-- readers whose `read_vectored` is the default loop (`loop_read_vectored!`) -/
+def Rd.UsesDefault : Rd → Prop
+  | .script _ _ => True
+  | .take _ _ => True
+  | _ => False
+
+theorem Rd.readVectored_default (r : Rd) (h : r.UsesDefault) (vs : VS) :
+    r.readVectored vs = defaultReadVectored r vs := by
+  cases r <;> simp_all [Rd.UsesDefault, Rd.readVectored]
+
+theorem Rd.usesDefault_read (r : Rd) (off : Nat) (h : r.UsesDefault) : (r.read off).2.UsesDefault := by
+  cases r with
+  | script s sc => simp [Rd.read, Rd.UsesDefault]
+  | take i lim =>
+    unfold Rd.read
+    split
+    · exact h
+    · generalize i.read (min lim off) = out
+      obtain ⟨res, i'⟩ := out
+      cases res with
+      | ok bs =>
+        simp only []
+        split <;> simp [Rd.UsesDefault]
+      | err e => simp [Rd.UsesDefault]
+      | panic => simp [Rd.UsesDefault]
+      | ub => simp [Rd.UsesDefault]
+      | fuel => simp [Rd.UsesDefault]
+  | mem d => simp [Rd.UsesDefault] at h
+  | cursor d p => simp [Rd.UsesDefault] at h
+  | buf i b => simp [Rd.UsesDefault] at h
+
+theorem readVectoredExactLoop_succ (fuel : Nat) (r : Rd) (bufs : List MBuf) (len read : Nat) :
+    readVectoredExactLoop (fuel + 1) r bufs len read =
+      if read < len then
+        match r.readVectored (VS.sliceMut bufs read) with
+        | (.ok n, r', vs) =>
+          if n = 0 then (.err .unexpectedEof, r', vs.bufs)
+          else readVectoredExactLoop fuel r' vs.bufs len (read + n)
+        | (.err .interrupted, r', vs) => readVectoredExactLoop fuel r' vs.bufs len read
+        | (.err e, r', vs) => (.err e, r', vs.bufs)
+        | (.panic, r', vs) => (.panic, r', vs.bufs)
+        | (.ub, r', vs) => (.ub, r', vs.bufs)
+        | (.fuel, r', vs) => (.fuel, r', vs.bufs)
+      else (.ok (), r, bufs) := rfl
+
+/-- `read_vectored_exact` into fresh buffers over a scripted stream (or a `Take` of one): after `d`
+has been delivered the buffers are `filled caps d`; the loop delivers a further prefix `t` of the
+stream, in order, across member boundaries, zero-capacity members included. -/
+theorem readVectoredExactLoop_spec : ∀ (fuel : Nat) (r : Rd) (caps : List Nat) (d : Bytes), r.WF →
+    r.UsesDefault → d.length ≤ sumNat caps → (sumNat caps - d.length) + r.entries < fuel →
+    ∃ (t : Nat) (res : Res Unit) (r' : Rd),
+      readVectoredExactLoop fuel r (filled caps d) (sumNat caps) d.length =
+        (res, r', filled caps (d ++ r.rest.take t)) ∧
+      t ≤ r.rest.length ∧ d.length + t ≤ sumNat caps ∧ r'.rest = r.rest.drop t ∧ r'.WF ∧
+      ((res = .ok () ∧ d.length + t = sumNat caps) ∨
+        (res = .err .unexpectedEof ∧ d.length + t < sumNat caps ∧ (r.Live → t = r.rest.length)) ∨
+        (∃ k, res = .err (.other k) ∧ k ∈ r.errs ∧ d.length + t < sumNat caps ∧ ¬ r.Live)) := by
+  intro fuel
+  induction fuel with
+  | zero => intro r caps d _ _ _ hf; omega
+  | succ fuel ih =>
+    intro r caps d hw hu hd hf
+    rw [readVectoredExactLoop_succ]
+    by_cases hlt : d.length < sumNat caps
+    · rw [if_pos hlt, Rd.readVectored_default r hu]
+      unfold defaultReadVectored
+      obtain ⟨room, hroom, hrle, hfr, hfill⟩ := fillView_filled caps d ([] : Bytes) hlt
+      rw [hfr]
+      simp only []
+      rcases Rd.read_cases r room hw with ⟨bs, r1, h⟩ | ⟨r1, h⟩ | ⟨k, r1, h⟩
+      · obtain ⟨h1, h2, h3, h4, h5, h6⟩ := Rd.read_ok hw h
+        have hu1 : r1.UsesDefault := by have := Rd.usesDefault_read r room hu; rw [h] at this; exact this
+        obtain ⟨room', _, _, hfr', hfill'⟩ := fillView_filled caps d bs hlt
+        have hre : room' = room := by
+          rw [hfr] at hfr'
+          cases hfr'
+          rfl
+        rw [h]
+        simp only []
+        rw [hfill' (by omega)]
+        simp only []
+        by_cases hz : bs.length = 0
+        · have hbs : bs = [] := List.eq_nil_of_length_eq_zero hz
+          simp only [hz, if_true]
+          refine ⟨0, _, r1, ?_, by omega, by omega, ?_, h4, Or.inr (Or.inl ⟨rfl, by omega, ?_⟩)⟩
+          · simp [hbs]
+          · rw [h3, hz]
+          · intro hl
+            rw [(Rd.live_ok hw hl hroom h).2 hz]; rfl
+        · simp only [hz, if_false]
+          have hbl := take_length_le_of_eq h1
+          have hlen : d.length + bs.length = (d ++ bs).length := by simp
+          rw [hlen]
+          obtain ⟨t, res, r2, he, ht1, ht2, ht3, ht4, ht5⟩ :=
+            ih r1 caps (d ++ bs) h4 hu1 (by simp; omega) (by simp; omega)
+          simp only [List.length_append] at ht2 ht5
+          refine ⟨bs.length + t, res, r2, ?_, ?_, by omega, ?_, ht4, ?_⟩
+          · rw [he, List.append_assoc, ← take_add_drop, ← h1, ← h3]
+          · rw [h3, List.length_drop] at ht1; omega
+          · rw [ht3, h3, List.drop_drop]
+          · rcases ht5 with ⟨e1, e2⟩ | ⟨e1, e2, e3⟩ | ⟨k, e1, e2, e3, e4⟩
+            · exact Or.inl ⟨e1, by omega⟩
+            · refine Or.inr (Or.inl ⟨e1, by omega, ?_⟩)
+              intro hl
+              have := e3 (Rd.live_ok hw hl hroom h).1
+              rw [h3, List.length_drop] at this
+              omega
+            · exact Or.inr (Or.inr ⟨k, e1, h6 k e2, by omega,
+                fun hl => e4 (Rd.live_ok hw hl hroom h).1⟩)
+      · obtain ⟨h1, h2, h3, h4⟩ := Rd.read_intr hw h
+        have hu1 : r1.UsesDefault := by have := Rd.usesDefault_read r room hu; rw [h] at this; exact this
+        rw [h]
+        simp only [VS.sliceMut]
+        obtain ⟨t, res, r2, he, ht1, ht2, ht3, ht4, ht5⟩ := ih r1 caps d h2 hu1 hd (by omega)
+        refine ⟨t, res, r2, ?_, ?_, ht2, ?_, ht4, ?_⟩
+        · rw [he, h1]
+        · rw [← h1]; exact ht1
+        · rw [ht3, h1]
+        · rcases ht5 with h' | ⟨e1, e2, e3⟩ | ⟨k, e1, e2, e3, e4⟩
+          · exact Or.inl h'
+          · refine Or.inr (Or.inl ⟨e1, e2, ?_⟩)
+            intro hl
+            rw [← h1]
+            exact e3 (Rd.live_intr hw hl hroom h)
+          · exact Or.inr (Or.inr ⟨k, e1, h4 k e2, e3, fun hl => e4 (Rd.live_intr hw hl hroom h)⟩)
+      · obtain ⟨h1, h2, h3, h4⟩ := Rd.read_other hw h
+        rw [h]
+        simp only [VS.sliceMut]
+        refine ⟨0, _, r1, ?_, by omega, by omega, ?_, h2, Or.inr (Or.inr ⟨k, rfl, h4, by omega,
+          fun hl => Rd.live_other hw hl hroom h⟩)⟩
+        · simp
+        · simp [h1]
+    · rw [if_neg hlt]
+      refine ⟨0, _, r, ?_, by omega, by omega, by simp, hw, Or.inl ⟨rfl, by omega⟩⟩
+      simp
+
 end Compio.Io
